@@ -85,9 +85,28 @@ Fixpoint all2 {A B} (f : A -> B -> bool) (l1 : list A) (l2 : list B) : bool :=
   | a :: r1, b :: r2 => f a b && all2 f r1 r2
   | _, _ => false
   end.
-Definition state_agree (c : case) (m : list (list (string * string)) * list (list (list (string * string))))
-    (o : list Z * list (list Z)) : bool :=
-  same_set (fst m) (map (lset_of c) (fst o)) && same_classes (snd m) (map (map (lset_of c)) (snd o)).
+(* cache and index contents as sets, in time linear in their size (the scale cases hold thousands of sources):
+   the harness lists label set numbers in strictly increasing order (so they are distinct) *)
+Fixpoint increasing (l : list Z) : bool :=
+  match l with
+  | a :: (b :: _) as r => (a <? b) && increasing r
+  | _ => true
+  end.
+Definition cache_agree (c : case) (r : irule) (o : list Z) : bool :=
+  increasing o && (length o =? size (ir_sc r))%nat &&
+  forallb (fun i => match ir_sc r !! lset_of c i with Some _ => true | None => false end) o.
+Definition class_key (c : case) (r : irule) (cl : list Z) : list string :=
+  match cl with [] => [] | i :: _ => eqkey (ir_cfg r) (lset_of c i) end.
+Definition class_agree (c : case) (r : irule) (cl : list Z) : bool :=
+  let mcl := ix_get (ir_ix r) (class_key c r cl) in
+  let s : gset (list (string * string)) := list_to_set mcl in
+  negb (beq cl []) && increasing cl && (length cl =? length mcl)%nat &&
+  forallb (fun j => bool_decide (lset_of c j ∈ s)) cl.
+Definition index_agree (c : case) (r : irule) (cls : list (list Z)) : bool :=
+  (length cls =? size (ir_ix r))%nat && bool_decide (NoDup (map (class_key c r) cls)) &&
+  forallb (class_agree c r) cls.
+Definition state_agree (c : case) (r : irule) (o : list Z * list (list Z)) : bool :=
+  cache_agree c r (fst o) && index_agree c r (snd o).
 
 Definition check_point (c : case) (p : list irule * list (Z * op) * Z * option obs) : bool :=
   match p with
@@ -97,16 +116,13 @@ Definition check_point (c : case) (p : list irule * list (Z * op) * Z * option o
          thousands of sources exist and only the first few label sets are asked about) *)
       all2 (mutes_agree c) (map (fun ls => mutes (re_of_table (c_re c)) ih ls now)
                                 (firstn (length (o_mutes ob)) (c_lsets c))) (o_mutes ob) &&
-      all2 (state_agree c) (model_state ih) (o_state ob)
+      all2 (state_agree c) ih (o_state ob)
   end.
 Definition check_case (c : case) : bool := forallb (check_point c) (case_points c).
 
 (* alerts firing at now according to a history: latest published update per fingerprint, unresolved at now *)
-Definition seg_fps (seg : list (Z * op)) : list (list (string * string)) := hist_fps seg.
 Definition firing_list (seg : list (Z * op)) (now : Z) : list alert :=
-  flat_map (fun f => match latest seg f with
-                     | Some a => if resolved_at a now then [] else [a]
-                     | None => [] end) (remove_dups (seg_fps seg)).
+  filter (fun a => resolved_at a now = false) (map snd (map_to_list (latest_map seg))).
 
 Definition prop_point (c : case) (p : list irule * list (Z * op) * Z * option obs) : bool :=
   let '(ih, seg, now, ob) := p in
